@@ -62,7 +62,7 @@ Lemma join_trans_inj t t' :
   ntrans_ok t = true -> ntrans_ok t' = true -> join_trans t = join_trans t' -> t = t'.
 Proof.
   destruct t as [a b], t' as [a' b']. unfold ntrans_ok, join_trans; cbn [fst snd].
-  intros H H' E. apply andb_true_iff in H as [Ha Hb]. apply andb_true_iff in H' as [Ha' Hb'].
+  intros Ha Ha' E.
   change (a ++ " -> " ++ b) with (a ++ (" -" ++ String gt_char (" " ++ b))) in E.
   change (a' ++ " -> " ++ b') with (a' ++ (" -" ++ String gt_char (" " ++ b'))) in E.
   rewrite <- !sapp_assoc in E.
